@@ -364,7 +364,7 @@ func TestC02(t *testing.T) {
 		for _, in := range gg.inputs {
 			inAxis[in.name] = in.batch
 		}
-		mc.batchAxis = func(k string) (int, bool) { a, ok := inAxis[k]; return a, ok }
+		mc.batchAxis = func(k string) (int, bool) { a, ok := inAxis[k]; return a, ok && a >= 0 }
 		mc.step(rt, "first", mc.mkFeed(rt, gg.batchN))
 		rt.Repeat(mc.actions(rt))
 		mc.record("generated")
